@@ -67,6 +67,11 @@ CHECKS = {
             'and compared with the model; attribute set/get/delete exercised on the real classes',
             'Held on the executions produced, with one open known finding (union-tag route attributes emitted '
             'with repr()).', '4 C09'),
+    'C14': ('runtime monitoring: the real python_client output imported next to python_types; a recording subclass of '
+            'the generated client observes request() calls; inspect.signature and AV read-back of the sent '
+            'argument compared with the model',
+            'Held on the executions produced, with one open known finding (alias-of-nullable field reorders '
+            'the positional construction).', '4 C14'),
 }
 
 PENDING = {}
